@@ -97,7 +97,7 @@ def run(tier, replay=None):
     vlib.write_evidence("C13", tier, "model_checking", {
         "states": len(progs), "transitions": len(specs), "exhaustive": False,
         "traces_validated_against_impl": len(specs),
-        "programs": [q["name"] for q in progs], "runs": len(specs), "vdr_modes": list(MODES),
+        "programs": len(progs), "program_names": [q["name"] for q in progs], "runs": len(specs), "vdr_modes": list(MODES),
         "moved_files_checked": checked, "clashing_declarations_refused": nclash,
         "samples": [{"program": specs[0]["name"], "post_checked": res[0].get("post_checked")}],
         "known_findings_hit": hit,
